@@ -34,11 +34,11 @@ CHECKS = {
    "Zero boolean arguments are read as true; several booleans are only generated with equal values.",
    "deterministic simulation (history refinement against a 3-state model; exhaustive core)", "DESIGN.md §5 C11"),
  "C15": ("HIST+PROC", "exploration",
-   "Seeded handler-derivation histories and bridge tables: records enter through a real log/slog.Logger, through explicit slog.Records given to Enabled+Handle, through log.Logger on the bridge and through Entry.Log; emitted-once, severity name, message, record time and attributes are decoded at the simulated destination of the underlying logger; after the first round of answers the underlying logger's level makes excursions (through Debug, which switches the process-wide debug mode on) and every handler is asked again; a third of the production worlds run with interrupts enabled so that a wrongly terminating level mapping kills the world process.",
+   "Seeded handler-derivation histories and bridge tables: records enter through a real log/slog.Logger, through explicit slog.Records given to Enabled+Handle, through log.Logger on the bridge and through Entry.Log; emitted-once, severity name, message, record time (an explicit Record's own instant; for a log/slog.Logger's records, which the standard library stamps itself, the simulated clock's reading handed on by the world) and attributes are decoded at the simulated destination of the underlying logger; after the first round of answers the underlying logger's level makes excursions (through Debug, which switches the process-wide debug mode on) and every handler is asked again; a third of the production worlds run with interrupts enabled so that a wrongly terminating level mapping kills the world process.",
    "Attribute kinds bool/float/duration/time are checked by key presence only (their rendering is C04/C05); duplicate keys are not generated (C07).",
    "deterministic simulation: derivation histories, I/O counts at simulated destinations, process death as observation", "DESIGN.md §5 C15"),
  "C16": ("HIST", "exploration",
-   "The simulated clock (years 0001-9999, zones, jumps, granularity) is the only clock logg reads; configurations (flags, UTC mode, layouts, formats) are sampled; the printed time text must equal the record's instant - the single clock read of the call, or the explicit instant of WriteThru - moved to the zone the statement gives and formatted with the logger layout or the exported layout constant matching the flags. A third of the episodes also hand explicit slog.Records (incl. the zero time, the epoch and the last instant of year 9999) to the log/slog adapter; bursts of records share one Unix second in different zones.",
+   "The simulated clock (years 0001-9999, zones, jumps, granularity) is the only clock logg reads; configurations (flags, UTC mode, layouts, formats) are sampled; the printed time text must equal the record's instant - the single clock read of the call, or the explicit instant of WriteThru - moved to the zone the statement gives and formatted with the logger layout or the exported layout constant matching the flags. A third of the episodes also hand explicit slog.Records (the epoch, the last instant of year 9999; not the zero time, which by log/slog's contract means no time - that instant goes to WriteThru) to the log/slog adapter; bursts of records share one Unix second in different zones.",
    "For the three flag sets without a matching exported layout any exported layout is accepted. time.Time.Format is the reference for 'formatted with layout'.",
    "deterministic simulation: simulated clock with jumps/zones, configuration sampling", "DESIGN.md §5 C16"),
  "C17": ("PROC", "exploration",
@@ -54,7 +54,7 @@ CHECKS = {
 
 CHECKS.update({
  "C02": ("HIST+CONC", "exploration",
-   "Seeded calls of every non-terminating severity through every entry point (also the package-level functions) with generated well-formed and malformed argument lists of every Go kind, over three formats, random flags, logger levels and 1-3 destinations per class; the per-destination I/O history of each call is the observable: no panic, exactly one Write per selected destination ending in a newline, none when not admitted, a single newline byte for blank Print/Println. The pool tape recycles buffers and attribute slices between calls; a quarter of the episodes issue the same calls from 2-3 concurrent caller tasks under the seeded scheduler, where writes are attributed to calls by the call token in the payload (which goroutine performs the Write is not part of the statement).",
+   "Seeded calls of every non-terminating severity through every entry point (also the package-level functions) with generated well-formed and malformed argument lists of every Go kind, over three formats, random flags, logger levels and 1-3 destinations per class; the per-destination I/O history of each call is the observable: no panic, exactly one Write per selected destination ending in a newline, none when not admitted, a single newline byte for blank Print/Println. The pool tape recycles buffers and attribute slices between calls; a quarter of the episodes issue the same calls from 2-3 concurrent caller tasks under the seeded scheduler and one in eight is a crowd (4-10 tasks, 12-31 calls, all on one logger, stalled Writes), where writes are attributed to calls by the call token in the payload (which goroutine performs the Write is not part of the statement).",
    "The argument space itself is workload generation; the simulation ingredients are the recorded I/O history per destination and the pool-recycling tape. Admission and selection come from the C01/C03 reference models. Values whose own methods panic and cyclic values are excluded by the statement.",
    "deterministic simulation: per-call I/O histories at simulated destinations, pool-recycling tape, reference admission and routing models", "DESIGN.md §5 C02"),
  "C08": ("CONC+CONC-race", "exploration",
@@ -66,7 +66,7 @@ CHECKS.update({
    "No configuration change between the two probes; in twin episodes both loggers see the same configuration calls (generator invariants, enforced for minimised scenarios).",
    "deterministic simulation: histories x schedules x pool-recycling tape, byte equality", "DESIGN.md §5 C09"),
  "C12": ("PROC+CONC", "fault_enumeration",
-   "Complete enumeration of the termination matrix (entry point x flags x process mode x admitted x format = 672 cells), each in its own world process whose death is the crash point: the record must be complete in a real file read after the process is gone, a Panic must be recoverable with the message as value, a Fatal must exit with status 253 with nothing after the record, every other cell and every other severity must run on to the end marker. A third of the seed variants put a permanently failing member in front of the durable one in the error device (crash point x fault), a quarter make the terminating call while calls of another goroutine on another logger are in flight under the seeded scheduler (the cell must terminate by itself, the other calls must neither panic nor exit), and some cell calls carry 60-2500 attributes.",
+   "Complete enumeration of the termination matrix (entry point x flags x process mode x admitted x format = 672 cells), each in its own world process whose death is the crash point: the record must be complete in a real file read after the process is gone, a Panic must be recoverable with the message as value, a Fatal must exit with status 253 with nothing after the record, every other cell and every other severity must run on to the end marker. A third of the seed variants put a permanently failing member in front of the durable one in the error device (crash point x fault), a quarter make the terminating call while calls of one or two other goroutines on another logger are in flight under the seeded scheduler - Writes that stall, stall and then fail (their diagnostic being one more call in flight), or never return - (the cell must terminate by itself, the other calls must neither panic nor exit), and some cell calls carry 60-2500 attributes.",
    "Process mode is spoofed through argv0/-test.* exactly as hedzr/is reads it. Messages, attributes and surrounding calls are sampled per seed.",
    "deterministic simulation: one OS process per cell, process death as crash point, durable destination read after death", "DESIGN.md §5 C12"),
  "C13": ("CONC", "fault_enumeration",
@@ -106,7 +106,7 @@ def main():
         },
         "engines": [
             {"name": "HIST", "path": "internal/world + internal/props", "serves_properties": [p for p in sorted(CHECKS) if CHECKS[p][0].startswith("HIST")], "kind_free_text": "one task, sequential op history against the reference model, one fresh world process per episode"},
-            {"name": "CONC", "path": "internal/world/sched.go", "serves_properties": [p for p in sorted(CHECKS) if "CONC" in CHECKS[p][0]], "kind_free_text": "many tasks under the seeded scheduler (one released at a time, yields at user callbacks), destination faults; race-transparent variant under the Go race detector"},
+            {"name": "CONC", "path": "internal/world/sched.go", "serves_properties": [p for p in sorted(CHECKS) if "CONC" in CHECKS[p][0]], "kind_free_text": "many tasks under the seeded scheduler (one released at a time, yields at user callbacks; locks, channel operations, selects, sync.Cond and sync.WaitGroup of package slog report 'would block' to it through overlay rules R5/R7), destination faults (error, partial, short, stall, stall-then-error, hang); race-transparent variant under the Go race detector"},
             {"name": "PROC", "path": "internal/orch/runner.go", "serves_properties": [p for p in sorted(CHECKS) if "PROC" in CHECKS[p][0]], "kind_free_text": "observations from outside the process: exit status, durable bytes at death, fd 1/2, process mode"},
             {"name": "BUF", "path": "internal/world/buf.go", "serves_properties": [p for p in sorted(CHECKS) if "BUF" in CHECKS[p][0]], "kind_free_text": "PrintCtx vs bytes.Buffer in lock-step with fault-injecting readers/writers"},
         ],
